@@ -505,6 +505,8 @@ func (r *Runner) assignVal(name string, prev expand.Variable, as *syntax.Assign,
 	if as.Append {
 		switch prev.Kind {
 		case expand.Unknown:
+		case expand.NameRef:
+			// a nameref without a target, like `declare -n ref=; ref+=(x)`
 		case expand.String:
 			list = []string{prev.Str}
 		case expand.Indexed:
